@@ -3,7 +3,8 @@
    register file size, R bank) and Gen_Codec (flavour tables) are regenerated
    from /repo on every run. *)
 From Coq Require Import ZArith List Bool String.
-From NQ Require Import Base.Bits Lang.Codec Lang.CodecCheck Lang.Asm Lang.AsmSem Lang.Text Lang.AsmCheck Proofs.AsmProofs.
+From NQ Require Import Base.Bits Lang.Codec Lang.CodecCheck Lang.Asm Lang.AsmSem Lang.Text Lang.TextFront Lang.AsmCheck Proofs.AsmProofs.
+From NQ Require Import Proofs.TextFrontProofs Proofs.TextFrontDecoProofs Proofs.TextFrontMacroProofs Proofs.TextFrontMeaning.
 From Gen Require Import Gen_Codec Gen_Asm.
 Import ListNotations.
 Open Scope Z_scope.
@@ -92,6 +93,68 @@ Theorem C03_assemble_rejects P c :
   assemble_ir gen_params P = AErr ENoScratch.
 Proof. exact (assemble_rejects gen_params P c). Qed.
 
+(* ---------- character level: the text front end ---------- *)
+
+(* the regenerated bank letters are distinct letters and the generic instruction names are words *)
+Theorem C03_front_tables_ok : banks_ok gen_banks = true /\ ginstrs_ok gen_ginstrs = true.
+Proof. vm_compute. split; reflexivity. Qed.
+
+(* printing a proto-subroutine (labels, bracket args, literals in every position incl.
+   @a[i] and @a[i:j]) and parsing the characters gives it back, any length *)
+Theorem C03_parse_print_proto P :
+  wf_proto gen_banks gen_ginstrs P = true ->
+  parse_text gen_banks gen_ginstrs (print_proto gen_banks P) = Some P.
+Proof. exact (parse_print_proto gen_banks gen_ginstrs P (proj1 C03_front_tables_ok) (proj2 C03_front_tables_ok)). Qed.
+
+(* comments, blank and comment-only lines, indentation, trailing blanks change nothing *)
+Theorem C03_decorate_parse ds t :
+  forallb deco_ok ds = true -> forallb clean_line t = true ->
+  parse_text gen_banks gen_ginstrs (decorate ds t) = parse_text gen_banks gen_ginstrs t.
+Proof. exact (decorate_parse gen_banks gen_ginstrs ds t). Qed.
+
+Theorem C03_trailing_blanks l ws :
+  clean_line l = true -> all_space ws = true -> ends_with COLON l = false ->
+  parse_cmd gen_banks gen_ginstrs (l +++ ws) = parse_cmd gen_banks gen_ginstrs l.
+Proof. exact (parse_cmd_trailing_blanks gen_banks gen_ginstrs l ws). Qed.
+
+(* macros: the per-key str.replace, longest key first, is the simultaneous substitution of
+   whole `$key` tokens, and a text with # DEFINE lines parses like the substituted text *)
+Theorem C03_apply_macros_subst ds ps :
+  defines_ok ds = true -> pieces_ok ds ps = true -> apply_macros ds (render ps) = subst ds ps.
+Proof. exact (apply_macros_subst ds ps). Qed.
+
+Theorem C03_with_defines_parse ds body :
+  defines_ok ds = true -> forallb (body_line_ok ds) body = true ->
+  parse_text gen_banks gen_ginstrs (with_defines ds body) = parse_text gen_banks gen_ginstrs (substituted ds body).
+Proof. exact (with_defines_parse gen_banks gen_ginstrs ds body). Qed.
+
+(* keys q, q2 (a prefix of each other) and a bracket-free value used as index *)
+Example C03_macros_nonvacuous :
+  let ds := [("q", "Q1"); ("q2", "R2"); ("idx", "@0[R2]")]%string in
+  let body := [[PLit "set "; PUse "q2"; PLit " 5"]; [PLit "store "; PUse "q2"; PLit " "; PUse "idx"];
+               [PLit "qalloc "; PUse "q"]]%string in
+  defines_ok ds && forallb (body_line_ok ds) body
+  && existsb (String.eqb "# DEFINE q2 R2") (with_defines ds body)
+  && existsb (String.eqb "store R2 @0[R2]") (substituted ds body)
+  && match parse_text gen_banks gen_ginstrs (with_defines ds body) with
+     | Some [AIns _ _ [AV (VReg 0 2); _]; _; AIns _ _ [AV (VReg 2 1)]] => true
+     | _ => false end = true.
+Proof. vm_compute. reflexivity. Qed.
+
+(* text in, simulating instruction objects out, for any flavour table *)
+Theorem C03_text_program_meaning (t : list row) ds P :
+  wf_proto gen_banks gen_ginstrs P = true -> wf_src P = true -> forallb deco_ok ds = true ->
+  exists R, assemble_text gen_params gen_banks gen_ginstrs t (decorate ds (print_proto gen_banks P)) = Some R
+            /\ R = assemble gen_params t P /\
+  forall B, R = AOk B ->
+  forall n ss st, eqv gen_params (named P) ss st ->
+  exists m, (n <= m)%nat /\
+            cfg_rel gen_params P (arun P n (Run 0 ss)) (arun (map embed B) m (Run 0 st)).
+Proof.
+  exact (text_program_meaning gen_params gen_banks gen_ginstrs t ds P (proj1 C03_front_tables_ok)
+           (proj2 C03_front_tables_ok) (proj1 C03_params_ok) (proj2 C03_params_ok)).
+Qed.
+
 (* non-vacuity: a program with a counted loop, consecutive labels, a label after the
    last instruction, literals at top level and as array index, bracket args and a
    register that occurs only as an index meets the hypotheses, assembles, and both
@@ -132,9 +195,28 @@ Example C03_rejects_nonvacuous :
   match assemble_ir gen_params P with AErr ENoScratch => true | _ => false end = true.
 Proof. vm_compute. reflexivity. Qed.
 
+(* the example program has a text; decorated, it is read back and assembled *)
+Example C03_front_nonvacuous :
+  let ds := [mkDeco [("  ", None); ("", Some " a comment")] " " "" (Some " declare"); mkDeco [] "" "  " None;
+             mkDeco [("", None)] "	" "" None] in
+  let text := decorate ds (print_proto gen_banks C03_example) in
+  wf_proto gen_banks gen_ginstrs C03_example && forallb deco_ok ds
+  && existsb (String.eqb " # NETQASM 1.0// declare") text
+  && existsb (String.eqb "store(5) @0[3]") text
+  && match assemble_text gen_params gen_banks gen_ginstrs gen_vanilla text with
+     | Some (AOk B) => Nat.eqb (List.length B) 15
+     | _ => false
+     end = true.
+Proof. vm_compute. reflexivity. Qed.
+
 Print Assumptions C03_assemble_simulates.
 Print Assumptions C03_assemble_preserves_result.
 Print Assumptions C03_labels_resolve.
 Print Assumptions C03_scratch_fresh.
 Print Assumptions C03_no_drop_dup_reorder.
 Print Assumptions C03_assemble_rejects.
+Print Assumptions C03_parse_print_proto.
+Print Assumptions C03_decorate_parse.
+Print Assumptions C03_text_program_meaning.
+Print Assumptions C03_with_defines_parse.
+Print Assumptions C03_apply_macros_subst.
